@@ -1,5 +1,6 @@
 import Pyx12Verif.Props.C02
 import Pyx12Verif.Props.C02Walk
+import Pyx12Verif.Props.C02Multi
 open Pyx12Verif.Walker
 #print axioms get_incr_same
 #print axioms get_incr_other
@@ -24,3 +25,10 @@ open Pyx12Verif.WalkerGen
 #print axioms walk_accepts_nested
 #print axioms walk_accepts_generated
 #print axioms exDeriv1
+#print axioms Pyx12Verif.WalkerGen.group_after
+#print axioms Pyx12Verif.WalkerGen.tail_after
+#print axioms Pyx12Verif.WalkerGen.groups_run
+#print axioms Pyx12Verif.WalkerGen.walk_accepts_multi
+#print axioms Pyx12Verif.WalkerGen.genReps_many
+#print axioms Pyx12Verif.WalkerGen.genChild_many
+#print axioms Pyx12Verif.WalkerGen.walk_accepts_multi_sets
